@@ -435,7 +435,9 @@ func (c *c5run) opTyped(p []Step) {
 		out = n.Raw()
 	})
 	if !ok {
-		c.add("n3", fx(nil))
+		// NewTypedNode has no error result: it panics when marshalling the children fails. That IS its failure report,
+		// so it is recorded as the error status of Marshal (2), not as a crash.
+		c.add("n2", fx(nil))
 	} else {
 		c.add("n0", fx(out))
 	}
@@ -475,6 +477,62 @@ func (c *c5run) opSet(p []Step, k Step, x *Val) {
 		return
 	}
 	node := generic.NewNode(x.T.K, vb)
+	exist := false
+	var err error
+	ok, _ := noPanic(func() {
+		switch k.Kind {
+		case 1:
+			exist, err = t.SetField(thrift.FieldID(k.N), node, c.opts)
+		case 2:
+			if k.N >= 0 && int(k.N) < len(t.Next) {
+				t.Next[k.N].Node = node
+				exist = true
+			} else {
+				err = fmt.Errorf("index out of range")
+			}
+		case 3:
+			c.noteStr(k.B)
+			exist, err = t.SetByStr(string(k.B), node, c.opts)
+		case 4:
+			exist, err = t.SetByInt(int(k.N), node, c.opts)
+		}
+	})
+	switch {
+	case !ok:
+		c.add("n3", "n0", fi(cap(t.Next)))
+	case err != nil:
+		c.add("n2", "n0", fi(cap(t.Next)))
+	default:
+		c.add("n0", fb(exist), fi(cap(t.Next)))
+	}
+	c.nops++
+}
+
+// the ERROR node a failed lookup returns: kind 0 = not found (Field() of an absent id), 1 = another error code
+// (Field() on a value that is not a struct)
+func c5errNode(kind int) generic.Node {
+	if kind == 0 {
+		return generic.NewNode(thrift.STRUCT, []byte{0}).Field(99)
+	}
+	return generic.NewNode(thrift.I32, []byte{0, 0, 0, 1}).Field(1)
+}
+
+// store the result of a FAILED lookup, unchecked, as a child (check op 9)
+func (c *c5run) opSetErr(p []Step, k Step, kind int) {
+	node := c5errNode(kind)
+	if !node.IsError() {
+		die("c5errNode(%d) is not an error node", kind)
+	}
+	c.add("n9")
+	c.add(pathFields(p)...)
+	c.add(k.fields()...)
+	c.add(fi(int(node.ErrCode().Behavior())))
+	t, st := c.nav(p)
+	if st != 0 {
+		c.add(fi(st), "n0", "n0")
+		c.nops++
+		return
+	}
 	exist := false
 	var err error
 	ok, _ := noPanic(func() {
@@ -651,11 +709,63 @@ func (c *c5run) editsOn(tg *c5target, n int) {
 			j := r.intn(len(ks))
 			c.opClear(tg.path, ks[j])
 			tg.touched[stepStr(ks[j])] = true
-		case cls < 91: // clear / get something absent
+		case cls < 90: // clear / get something absent
 			if k, ok := c.absentKey(tg); ok {
 				c.opClear(tg.path, k)
 			}
-		case cls < 94: // wrong kind of access
+		case cls < 92: // clear / get something absent (second half of the class above)
+			if k, ok := c.absentKey(tg); ok {
+				c.opGet(tg.path, k)
+			}
+		case cls < 97: // the result of a FAILED lookup is stored as a child: Marshal must fail until it is replaced
+			var k Step
+			var repair *Ty
+			if len(ks) > 0 && (r.chance(60) || tg.val.T.K == thrift.LIST || tg.val.T.K == thrift.SET) {
+				j := r.intn(len(ks))
+				ct := cs[j].T
+				isC := ct.K == thrift.STRUCT || ct.K == thrift.MAP || ct.K == thrift.LIST || ct.K == thrift.SET
+				if isC && !tg.leafKid {
+					if tg.val.T.K != thrift.STRUCT {
+						continue
+					}
+					ct = c5ty(thrift.I32)
+				}
+				k, repair = ks[j], ct
+			} else {
+				if tg.val.T.K == thrift.LIST || tg.val.T.K == thrift.SET {
+					continue
+				}
+				ak, ok := c.absentKey(tg)
+				if !ok {
+					continue
+				}
+				k = ak
+				if tg.val.T.K == thrift.MAP {
+					repair = tg.val.T.Elem
+				} else {
+					repair = g.elemTy(1)
+				}
+				tg.extra = append(tg.extra, k)
+			}
+			c.opSetErr(tg.path, k, r.intn(3)/2) // mostly not-found, sometimes another error code
+			tg.touched[stepStr(k)] = true
+			if r.chance(50) {
+				c.opMarshal(tg.path)
+			} else {
+				c.opTyped(tg.path)
+			}
+			if len(tg.path) > 0 && r.chance(50) {
+				c.opMarshal(nil)
+			}
+			if r.chance(30) {
+				c.opGet(tg.path, k)
+			}
+			if r.chance(75) {
+				c.opSet(tg.path, k, g.payload(repair))
+			} else {
+				return // the tree stays unmarshallable: later marshals of this target must keep failing
+			}
+		case cls < 98: // wrong kind of access
 			switch r.intn(3) {
 			case 0:
 				c.opGet(tg.path, Step{Kind: 1, N: 1})
